@@ -515,7 +515,7 @@ theorem inputsOK_removeExpired (order : List Nat) (s : Pool) (h : InputsOK s) : 
   unfold removeExpired
   induction order generalizing s with
   | nil => exact h
-  | cons a l ih => simp only [List.foldl_cons]; exact ih _ (inputsOK_removeEntry h a)
+  | cons a l ih => simp only [List.foldl_cons]; exact ih _ (inputsOK_removeWithDesc h a).1
 
 theorem foldAdd_ok (l : List Entry) (s : Pool) (h : InputsOK s) :
     InputsOK (l.foldl (fun s x => (addEntry s x.tx .pending x.ts).1) s) := by
